@@ -31,7 +31,7 @@ ASSUMPTIONS = ['"parsing fails" is read as: Message.parse raises a protocol erro
                'per exchange type in thorough']
 EXPECT_REACH = ['protected_verified', 'roundtrip_compared', 'over_padded_judged', 'tamper.flip', 'tamper.trunc', 'tamper.extend', 'tamper.cross_sa', 'tamper.reflect',
                 'tamper.flags', 'mod16_all_residues', 'integ.2', 'integ.12', 'integ.14', 'encr.128', 'encr.256']
-TAMPER = ('flip', 'flip', 'flip', 'trunc', 'extend', 'cross_sa', 'reflect', 'flags')
+TAMPER = ('flip', 'flip', 'flip', 'trunc', 'extend', 'cross_sa', 'reflect', 'flags', 'hdr', 'hdr')
 
 
 class ParseWatch:
@@ -73,7 +73,7 @@ class Tamperer(Forger):
         if node.state != 'running' or node.exited or node.stalled_until > w.now or node.has_readable() or \
                 any(s.queue for s in node.kernel.event_socks) or timers_due(node):
             return self._r('skip')
-        cands = [sa for sa in node.ike_sas() if sa.ike_sa_keyring is not None]
+        cands = [sa for sa in node.ike_sas() if sa.ike_sa_keyring is not None or getattr(sa, 'peer_crypto', None) is not None]
         if not cands:
             return self._r('skip.no_sa_with_keys')
         sa = cands[op.get('sa', 0) % len(cands)]
@@ -121,7 +121,7 @@ class Tamperer(Forger):
             w.poisoned = True
         else:
             self._r('tamper_rejected')
-            if h is not None and h['exch'] != 34 and had_keys and outcome == 'ok' and op['kind'] in ('flip', 'outer_flip'):
+            if h is not None and (h['exch'] != 34 or op['kind'] == 'hdr') and had_keys and outcome == 'ok' and op['kind'] in ('flip', 'outer_flip', 'hdr'):
                 # the Encrypted payload is still announced as first payload: the parser saw it and must have refused
                 chain_ok = True
                 try:
@@ -154,6 +154,9 @@ def generate(seed, tier):
             op['fix_length'] = r.random() < 0.6
         elif kind == 'flags':
             op['flags'] = r.choice([0x00, 0x08, 0x20, 0x28, 0x10, 0x18, 0x30, 0x38])
+        elif kind == 'hdr':
+            op['field'] = r.choice(['exch', 'exch', 'exch', 'version', 'msgid'])
+            op['value'] = {'exch': r.choice([34, 34, 35, 36, 37, 38, 0, 255]), 'version': r.choice([0x21, 0x30, 0x10]), 'msgid': r.choice([1, -1, 256])}[op['field']]
         elif kind == 'cross_sa':
             op['fix_flags'] = True
             op['fix_id'] = r.random() < 0.7
